@@ -200,3 +200,11 @@ package paillier
 //@   allocates
 //@   ensures result2 == nil ==> (result0 != nil && result1 != nil && ct != nil)
 //@   ensures (result2 == nil) == ctvalid(sk.PublicKey, ct)
+
+// Restoring a secret key from its primes (Config.UnmarshalBinary, after both primes passed ValidatePrime): a complete key.
+//@ func NewSecretKeyFromPrimes
+//@   nopanic[C05,C15]
+//@   requires P != nil && Q != nil
+//@   modifies nothing
+//@   allocates
+//@   ensures result != nil && fresh(result) && result.PublicKey != nil && fresh(result.PublicKey) && pkok(result.PublicKey) && result.p == P && result.q == Q && result.phi != nil && result.phiInv != nil
